@@ -946,6 +946,12 @@ class Reaction(Object):
         for x in state["_genes"]:
             x._model = self._model
             x._reaction.add(self)
+        # When a reaction that belongs to a model is itself the root of a pickle,
+        # the model and its list of reactions are rebuilt before this reaction has
+        # its identifier back, so the list has indexed it under the wrong key.
+        reactions = getattr(self._model, "reactions", None)
+        if reactions is not None and reactions._dict.get(self.id) is None:
+            reactions._generate_index()
 
     def copy(self) -> "Reaction":
         """Copy a reaction.
